@@ -192,5 +192,9 @@ def main(argv):
         return sensitivity(argv[1:])
     if argv[0] == "silence":
         return silence(argv[1:])
+    if argv[0] == "port":
+        from .port_check import main as port_main
+
+        return port_main(argv[1:])
     print(__doc__)
     return 2
